@@ -124,7 +124,15 @@ theorem LockInv.mu_excl {s : St} (hi : LockInv s) (hs : Serial s.sh) {t u : Tid}
   rw [o1] at o2
   exact Option.some.inj o2
 
-theorem GramInv.step {s s' : St} {t : Tid} (hl : LockInv s) (hs : Serial s.sh) (hi : GramInv s)
+/-- at most one thread is inside a callback or armed -/
+def Excl (s : St) : Prop :=
+  ∀ (t u : Tid) (th thu : Thread), s.threads[t]? = some th → s.threads[u]? = some thu →
+    (th.ctl.inside || th.ctl.armed.isSome) = true → (thu.ctl.inside || thu.ctl.armed.isSome) = true → t = u
+
+theorem LockInv.excl {s : St} (hi : LockInv s) (hs : Serial s.sh) : Excl s :=
+  fun _ _ _ _ ht hu h1 h2 => hi.mu_excl hs ht hu h1 h2
+
+theorem GramInv.step {s s' : St} {t : Tid} (hl : LockInv s) (hex : Excl s) (hi : GramInv s)
     (h : step P s t = some s') : GramInv s' := by
   obtain ⟨th, sh', th', hth, hst, rfl⟩ := step_some h
   have hr := hl.inReach t th hth
@@ -228,7 +236,7 @@ theorem GramInv.step {s s' : St} {t : Tid} (hl : LockInv s) (hs : Serial s.sh) (
           simp [Ctl.armed, hli] at ha
         · exfalso
           apply hne'
-          refine (hl.mu_excl hs hth hu' ?_ ?_).symm
+          refine (hex _ _ _ _ hth hu' ?_ ?_).symm
           · simp [harm]
           · simp [ha]
       · rw [hb]; exact grammar_snoc _ _ hnt
